@@ -52,10 +52,10 @@ class _IntervalComputer(Generic[MODEL], MatcherStdTypeVisitor[MODEL, IntInterval
         return self._interval_adaption(operand.accept(self._negation_evaluator))
 
     def visit_conjunction(self, operands: Sequence[MatcherWTrace[MODEL]]) -> IntIntervalWInversion:
-        return self._bin_op(combinations.intersection, operands)
+        return self._bin_op(combinations.intersection, combinations.union, operands)
 
     def visit_disjunction(self, operands: Sequence[MatcherWTrace[MODEL]]) -> IntIntervalWInversion:
-        return self._bin_op(combinations.union, operands)
+        return self._bin_op(combinations.union, combinations.intersection, operands)
 
     def visit_non_standard(self, matcher: MatcherWTrace[MODEL]) -> IntIntervalWInversion:
         if isinstance(matcher, WithIntInterval):
@@ -65,12 +65,19 @@ class _IntervalComputer(Generic[MODEL], MatcherStdTypeVisitor[MODEL, IntInterval
 
     def _bin_op(self,
                 operator: Callable[[IntIntervalWInversion, IntIntervalWInversion], IntIntervalWInversion],
+                operator_of_inversion: Callable[[IntIntervalWInversion, IntIntervalWInversion],
+                                                IntIntervalWInversion],
                 operands: Sequence[MatcherWTrace],
                 ) -> IntIntervalWInversion:
-        unadapted = functools.reduce(operator, [operand.accept(self) for operand in operands])
+        operand_intervals = [operand.accept(self) for operand in operands]
+        unadapted = functools.reduce(operator, operand_intervals)
+        # The inversion must cover everything the negated expression may match (De Morgan):
+        # it cannot be derived from the combined interval, since that is only a covering interval.
+        unadapted_inversion = functools.reduce(operator_of_inversion,
+                                               [interval.inversion for interval in operand_intervals])
         return intervals.WithCustomInversion(
             unadapted,
-            self._interval_adaption(unadapted.inversion),
+            self._interval_adaption(unadapted_inversion),
         )
 
 
